@@ -41,6 +41,10 @@ namespace Scico.Steps
 /-- how an accessor rejects its arguments (`ValueError`) -/
 inductive Err where
   | value
+  /-- `TypeError` -/
+  | type
+  /-- `IndexError` -/
+  | index
   deriving Repr, DecidableEq
 
 /-- Python `a == 1.0` on floats, written with `<` only (DESIGN §4.1) -/
@@ -105,6 +109,20 @@ def admmInitChecked [Zero X] [Zero Z] (p : ADMMParams K X Z) (x0 : Option X) : E
   if p.C.length != p.g.length then .error .value
   -- if len(rho_list) != N: raise ValueError
   else if p.rho.length != p.g.length then .error .value
+  else .ok (admmInit p x0)
+
+/-- the whole of `ADMM.__init__`, including the empty constraint list `N = 0`: after the length checks
+    `subproblem_solver.internal_init(self)` runs — the linear-system solvers (`LinearSubproblemSolver` and its subclasses)
+    `reduce` over `C_list` and raise `TypeError` when it is empty (`solverReduces`), `GenericSubproblemSolver` does not —
+    and then a missing `x0` reads `C_list[0]` (`IndexError` when empty). -/
+def admmInitFull [Zero X] [Zero Z] (solverReduces : Bool) (p : ADMMParams K X Z) (x0 : Option X) :
+    Except Err (ADMMState X Z) :=
+  if p.C.length != p.g.length then .error .value
+  else if p.rho.length != p.g.length then .error .value
+  -- self.subproblem_solver.internal_init(self)
+  else if solverReduces && p.C.length == 0 then .error .type
+  -- if x0 is None: input_shape = C_list[0].input_shape
+  else if x0.isNone && p.C.length == 0 then .error .index
   else .ok (admmInit p x0)
 
 variable [Add Z] [Sub Z] [SMul K Z] [Sub K] [Div K] [One K] [LT K] [DecidableLT K]
